@@ -66,16 +66,18 @@ ENTRY = {'coq_dir': 'C01',
          'decides; random lists); kind 8 the WebRTC Noise path on byte vectors (NoiseContext::with_prologue, first_message, '
          "get_remote_peer_id; prologue from litep2p's noise_prologue) against a snow responder whose prologue is computed from the same or "
          'from a differing fingerprint pair (bit flips, swapped, truncated) or who uses no prologue / only the prefix, with all '
-         "forged-payload classes of stream (3); kind 6 over QUIC: two complete Litep2p nodes, right / wrong peer id dialed ('Wrong peer ID "
-         "in p2p extension' arrives as the reason of a TLS transport error); kind 9 with the scripted transport installed as QUIC. A "
-         'stream trace that fails prop_ok yields STREAM-VIOLATION with a replay file (replays/C01-x-<seed>-<n>.case; the harness_c01x '
-         "binary takes --replay), a disagreement yields a replay of the first differing case. prop_ok is judged on the implementation's "
-         "trace without the model's decoders: a side reports peer P only if the ed25519 table has a `true` verdict for a key with id P "
-         "over DOMAIN ++ this session's remote static key with both key and signature occurring in the payload, and P equals the dialed "
-         'peer if one was given; both ends connect only if the bytes consumed by the handshakes are the bytes sent; any connected end '
-         "names the other end's identity key; a TLS identity is accepted only from a certificate with exactly one libp2p extension and no "
-         'other critical extension; the manager hands out a dialed connection only for the peer it dialed. A case is non-trivial when its '
-         'trace has >= 40 numbers',
+         'forged-payload classes of stream (3); the reply handed to get_remote_peer_id also with a length prefix that does not match '
+         '(smaller but enough for the payload, one byte too small for the payload, 65535, 0), with a byte appended behind the message, or '
+         "cut to a single byte; kind 6 over QUIC: two complete Litep2p nodes, right / wrong peer id dialed ('Wrong peer ID in p2p "
+         "extension' arrives as the reason of a TLS transport error); kind 9 with the scripted transport installed as QUIC. A stream trace "
+         'that fails prop_ok yields STREAM-VIOLATION with a replay file (replays/C01-x-<seed>-<n>.case; the harness_c01x binary takes '
+         "--replay), a disagreement yields a replay of the first differing case. prop_ok is judged on the implementation's trace without "
+         "the model's decoders: a side reports peer P only if the ed25519 table has a `true` verdict for a key with id P over DOMAIN ++ "
+         "this session's remote static key with both key and signature occurring in the payload, and P equals the dialed peer if one was "
+         'given; both ends connect only if the bytes consumed by the handshakes are the bytes sent; any connected end names the other '
+         "end's identity key; a TLS identity is accepted only from a certificate with exactly one libp2p extension and no other critical "
+         'extension; the manager hands out a dialed connection only for the peer it dialed. A case is non-trivial when its trace has >= 40 '
+         'numbers',
  'trusted_base': ['signatures: `verify` and `on_curve` are arbitrary functions in the theorems; in runs they are tables of real '
                   'ed25519-dalek / curve25519 results computed by the harness with libp2p-identity 0.2.14 (ed25519-dalek called directly, '
                   "not through litep2p's crypto::ed25519; same non-strict verification). C01_binding additionally ASSUMES the "
@@ -157,17 +159,20 @@ ENTRY = {'coq_dir': 'C01',
                'with the fixed signature 0100..00||00..00 in every session without any secret; the resulting peer id is the hash of that '
                'weak key, which no honest node owns. Not modelled: RSA keys (cargo feature off), timeouts (the Timeout arm of '
                'handshake()), the X.509 / TLS 1.3 / DTLS layers, the byte-level split of a Noise message into its components (done in Glue '
-               "by fixed offsets, tested). In a debug build the manager's comparison stops at debug_assert!(false) before it rejects: kind "
-               '9 counts the panic as a refusal (a release build calls transport.reject). WHAT IS MISSING FROM THE *_partial THEOREMS: (a) '
-               'they speak about the linear script (one session pair) at the level of byte strings; the Dolev-Yao theorems close the '
-               'multi-session / interleaving gap for authentication, key secrecy, session matching and now also for agreement on the '
-               'transcript and on the prologue (C01_dy_dialer_agreement, C01_dy_listener_agreement), at the level of terms; (b) no_forgery '
-               'is a hypothesis on the run there (a delivered ciphertext bound to a handshake hash its reader will use was produced by the '
-               "peer), whereas in the Dolev-Yao layer the attacker's inability is derived from the closure rules; (c) in both layers the "
-               'hash is collision-free and terms stand for bytes: that snow/ChaChaPoly/SHA-256/X25519 realise the symbolic operations is '
-               'tested, not proved; C01_transcript_hash_instance (formerly _partial) is a complete theorem: it shows the injectivity '
-               'hypothesis satisfiable. Further observations: (i) the dialer writes message 3 — its own identity, readable by the holder '
-               "of the static key it was given — before checking the listener's signature (C01_xx_order (iv)): a rogue listener learns the "
+               'by fixed offsets, tested). Observation (harmless): the WebRTC caller get_remote_peer_id does not check its two-byte length '
+               'prefix against the reply — the prefix only sizes the output buffer and all bytes behind it go to snow; a wrong prefix that '
+               'still leaves room for the payload is accepted, anything appended breaks the last AEAD tag (run8 in Glue.v, tested by kind '
+               "8). In a debug build the manager's comparison stops at debug_assert!(false) before it rejects: kind 9 counts the panic as "
+               'a refusal (a release build calls transport.reject). WHAT IS MISSING FROM THE *_partial THEOREMS: (a) they speak about the '
+               'linear script (one session pair) at the level of byte strings; the Dolev-Yao theorems close the multi-session / '
+               'interleaving gap for authentication, key secrecy, session matching and now also for agreement on the transcript and on the '
+               'prologue (C01_dy_dialer_agreement, C01_dy_listener_agreement), at the level of terms; (b) no_forgery is a hypothesis on '
+               'the run there (a delivered ciphertext bound to a handshake hash its reader will use was produced by the peer), whereas in '
+               "the Dolev-Yao layer the attacker's inability is derived from the closure rules; (c) in both layers the hash is "
+               'collision-free and terms stand for bytes: that snow/ChaChaPoly/SHA-256/X25519 realise the symbolic operations is tested, '
+               'not proved; C01_transcript_hash_instance (formerly _partial) is a complete theorem: it shows the injectivity hypothesis '
+               'satisfiable. Further observations: (i) the dialer writes message 3 — its own identity, readable by the holder of the '
+               "static key it was given — before checking the listener's signature (C01_xx_order (iv)): a rogue listener learns the "
                "dialer's identity even though it is then rejected; (ii) TCP takes the expectation from the /p2p part of the dialed address "
                '(Option): an address without it would skip the comparison; the manager only dials addresses carrying /p2p (dial_address '
                'refuses others; stored addresses: C10).',
